@@ -319,8 +319,9 @@ class PolySpec:
             return arr
         env = dict(self.B.env)
         for a in self.angles:
-            env[f"cos({a})"] = math.cos(float(env[a]))
-            env[f"sin({a})"] = math.sin(float(env[a]))
+            if a in env:                     # a phase that is the literal 0.0 in this case was substituted away
+                env[f"cos({a})"] = math.cos(float(env[a]))
+                env[f"sin({a})"] = math.sin(float(env[a]))
         out = np.zeros(arr.shape, dtype=complex)
         for idx in np.ndindex(arr.shape):
             out[idx] = self.poly.Poly.coerce(arr[idx]).evalf(env)
